@@ -67,3 +67,105 @@ def check(P: Project, R: Report) -> None:
              sample=f"R2 path receive→next iteration with {sorted(l[:50] for l in st.lits if m in l)} hands on: {handed or 'nothing'}")
     r1_ok = all(o.ok for o in R.obligations if o.rule == "R1")
     R.need(n_foreign >= 1 or not r1_ok, "anchor: no foreign-id path found in the loop body although returns are id-guarded")
+
+    # ------------------------------------------------------------------ R3: the per-request routing table
+    R.rule("R3", "the stdio client's per-request routing table is a map from request id to that request's stream: entries are inserted only by the registration call under the caller's id, looked up and removed by the router only under the id of the message it is routing, and otherwise only touched by the shutdown path — nothing else removes, closes or re-keys another request's entry")
+    from . import _stdio
+
+    cl = _stdio.client(P)
+    meths = P.methods(cl)
+    reg = None
+    attr = None
+    for f in meths.values():
+        if f.name.startswith("_"):
+            continue
+        has_stream = any(isinstance(c, ast.Call) and call_name(c).split(".")[-1] == "create_memory_object_stream" for c in walk_local(f.node))
+        for s_ in walk_local(f.node):
+            if has_stream and isinstance(s_, ast.Assign) and len(s_.targets) == 1 and isinstance(s_.targets[0], ast.Subscript):
+                t = s_.targets[0]
+                if isinstance(t.value, ast.Attribute) and isinstance(t.value.value, ast.Name) and t.value.value.id == "self" and isinstance(t.slice, ast.Name) and t.slice.id in f.positional_params():
+                    reg, attr = f, t.value.attr
+    R.need(reg is not None, "anchor: the per-request registration call (public method storing a new stream under its id parameter) was not found")
+    R.fn(reg.fq)
+    rt = _stdio.router(P)
+    R.fn(rt.fq)
+    mp = [p for p in rt.positional_params() if p != "self"][0]
+    tab = f"self.{attr}"
+    # names in the router that hold the routed message's id (possibly through str())
+    id_names = set()
+    for s_ in walk_local(rt.node):
+        if isinstance(s_, ast.Assign) and len(s_.targets) == 1 and isinstance(s_.targets[0], ast.Name):
+            v = ast.unparse(s_.value)
+            if v in (f"getattr({mp}, 'id', None)", f"{mp}.id") or any(v == f"str({n})" for n in list(id_names)) or v in (f"str(getattr({mp}, 'id', None))", f"str({mp}.id)"):
+                id_names.add(s_.targets[0].id)
+
+    def key_is_routed_id(k: ast.AST) -> bool:
+        t = ast.unparse(k)
+        return t in id_names or t in (f"str({n})" for n in id_names) or t in (f"getattr({mp}, 'id', None)", f"{mp}.id", f"str(getattr({mp}, 'id', None))", f"str({mp}.id)")
+
+    import re as _re
+
+    def sweep_only_drops_closed(f) -> bool:
+        """A sweep over the table is harmless iff every removal/close in it happens under a literal saying that
+        nobody holds the receive end any more."""
+        def sev(stmt, st, an2):
+            txt = ast.unparse(stmt)
+            removing = (isinstance(stmt, ast.Delete) and tab in txt) or (isinstance(stmt, ast.Expr) and isinstance(stmt.value, (ast.Call, ast.Await)) and _re.search(r"\.(pop|popitem|clear|close|aclose)\(", txt))
+            if not removing:
+                return None
+            closed = any(_re.search(r"open_receive_streams\s*(==|<=)\s*0|^not .*open_receive_streams(?! *[><=])", an2.origin(l)) for l in st.lits)
+            return "remove:closed" if closed else "remove:LIVE"
+
+        an2, o2 = run_paths(f.node, stmt_event_of=sev, fallible=False)
+        ends = [st for st, _n in o2.ret] + list(o2.normal)
+        return not any("remove:LIVE" in st.events for st in ends)
+
+    SHUTDOWN = {"__aexit__", "close", "aclose"} | {f.name for f in meths.values() if f.name != rt.name and any(isinstance(c, ast.Call) and call_name(c) == f"self.{f.name}" for g in (meths.get("__aexit__"),) if g is not None for c in walk_local(g.node))}
+    n_sites = 0
+    for f in meths.values():
+        for n in walk_local(f.node):
+            site = None
+            ok = True
+            why = ""
+            if isinstance(n, ast.Subscript) and ast.unparse(n.value) == tab and isinstance(n.ctx, (ast.Store, ast.Del)):
+                site = ast.unparse(n)
+                if isinstance(n.ctx, ast.Store):
+                    ok = f is reg
+                    why = "an entry is (re)written outside the registration call"
+                else:
+                    ok = (f is rt and key_is_routed_id(n.slice)) or f.name in SHUTDOWN or (f is not rt and f is not reg and sweep_only_drops_closed(f))
+                    why = f"`del {site}` removes an entry whose key is not the id of the message being routed"
+            elif isinstance(n, ast.Call) and isinstance(n.func, ast.Attribute) and ast.unparse(n.func.value) == tab:
+                m_ = n.func.attr
+                site = ast.unparse(n)[:60]
+                if m_ in ("get", "__getitem__", "__contains__"):
+                    ok = f.name in SHUTDOWN or (f is rt and bool(n.args) and key_is_routed_id(n.args[0]))
+                    why = "the stream is looked up under a key that is not the routed message's id: a response could reach another request's stream"
+                elif m_ in ("pop",):
+                    ok = f.name in SHUTDOWN or (f is rt and bool(n.args) and key_is_routed_id(n.args[0]))
+                    why = "an entry is removed under a key that is not the routed message's id"
+                elif m_ in ("clear", "popitem", "update", "setdefault"):
+                    ok = f.name in SHUTDOWN
+                    why = f"`.{m_}()` on the routing table outside the shutdown path"
+                elif m_ in ("items", "values", "keys", "copy"):
+                    ok = f.name in SHUTDOWN or f.name == "__repr__" or sweep_only_drops_closed(f)
+                    why = "the table is swept as a whole outside the shutdown path, and the sweep removes or closes entries on a path that has not established that the caller's receive end is closed (`statistics().open_receive_streams == 0`): those requests may still be about to wait for their response"
+                else:
+                    continue
+            elif isinstance(n, ast.Subscript) and ast.unparse(n.value) == tab and isinstance(n.ctx, ast.Load):
+                site = ast.unparse(n)
+                ok = f.name in SHUTDOWN or (f is rt and key_is_routed_id(n.slice))
+                why = "the stream is looked up under a key that is not the routed message's id"
+            if site is None:
+                continue
+            n_sites += 1
+            R.call_sites += 1
+            R.ob("R3", f"{f.qual}: `{site}` respects the id → stream map", ok, f"{f.module.rel}:{n.lineno}", why + " — a caller whose response the server did send can lose it (or receive someone else's)",
+                 sample=f"R3 {f.qual}: {site}")
+    R.ob("R3", "registration, lookup and removal sites of the routing table were found", n_sites >= 3, f"{cl.module.rel}:{cl.node.lineno}", f"{n_sites} sites of {tab}")
+    # the router hands the message to the looked-up stream itself
+    for c in walk_local(rt.node):
+        if isinstance(c, ast.Call) and isinstance(c.func, ast.Attribute) and c.func.attr in ("send", "send_nowait") and isinstance(c.func.value, ast.Name):
+            lv = [s_ for s_ in walk_local(rt.node) if isinstance(s_, ast.Assign) and len(s_.targets) == 1 and ast.unparse(s_.targets[0]) == c.func.value.id]
+            if lv and tab in ast.unparse(lv[-1].value):
+                R.ob("R3", "the per-request stream receives the routed message itself", bool(c.args) and ast.unparse(c.args[0]) == mp, f"{rt.module.rel}:{c.lineno}", f"sends `{ast.unparse(c.args[0]) if c.args else ''}`")
